@@ -34,7 +34,8 @@ Drop(f, K)   == [x \in DOMAIN f \ K |-> f[x]]
 
 Canon(n) == <<n, IF n \in DOMAIN variant THEN variant[n] ELSE 0>>
 
-CallKinds == {"poll", "rhead", "hreceipt", "rreceipt", "rtime"}
+\* "ltime" is the block lookup of the log hand-over: the watcher does not survive its failure (Run returns)
+CallKinds == {"poll", "rhead", "hreceipt", "rreceipt", "rtime", "ltime"}
 
 ChainInit(l, f) ==
     /\ latest = l /\ final = f
